@@ -150,10 +150,16 @@ def strat_solve1d(tier):
     return _models().flatmap(lambda md: _cfg1d(md, nmax, True, tier))
 
 
-def _build1d(case):
+def _build1d(case, model=None, reverse=False):
     md = case["model"]
-    s, bcL, bcR = resolve1d(md, case["ustate"], case["kind"], case["inlet"], case["outlet"])
-    model = cases.build_model(md)
+    ust = dict(case["ustate"])
+    if reverse:          # the same problem with the flow in the other direction (used with the SAME model object)
+        for key in ("mach", "u"):
+            if key in ust:
+                ust[key] = -ust[key]
+    s, bcL, bcR = resolve1d(md, ust, case["kind"], case["inlet"], case["outlet"])
+    if model is None:
+        model = cases.build_model(md)
     mesh = cases.build_mesh(case["mesh"])
     xf = np.asarray(mesh.xf, dtype=float)
     n = len(xf) - 1
@@ -183,6 +189,16 @@ def check_op1d(case):
                 % (k, e, md["name"], case["flux"], case["num"].get("limiter", case["num"]["name"]), bcL["type"], bcR["type"], case["mesh"]["kind"], s.get("mach", 0.0)))
         worst = max(worst, e / tf)
     target(worst, "uniform-residual/tol")
+    # the same model OBJECT then serves the reversed flow (inlet and outlet exchanged): a model must not remember the first problem it saw
+    if md["name"] not in ("convection",):
+        md2, smd2, s2, bcL2, bcR2, model2, mesh2, xf2, n2, prim2, disc2, f2 = _build1d(case, model=model, reverse=True)
+        r2 = [np.asarray(x, dtype=float) for x in disc2.rhs(f2)]
+        tf2 = _tolfac(smd2, bcL2, bcR2)
+        for k in range(len(r2)):
+            require(np.all(np.isfinite(r2[k])), "residual-finite", "residual of a uniform state is not finite for the reversed flow on the same model object (bc %s/%s)" % (bcL2["type"], bcR2["type"]))
+            e = float(np.max(np.abs(r2[k]))) * dxmin / scales[k]
+            require(e <= tf2, "uniform-residual-reversed-flow", "equation %d: |R|*dx_min/scale = %.3g for the uniform state with reversed flow direction evaluated with the SAME model object "
+                    "(%s/%s, bc %s/%s, Mach %.3g)" % (k, e, md["name"], case["flux"], bcL2["type"], bcR2["type"], s2.get("mach", 0.0)))
     return dict(nontrivial=True, labels=["model:" + md["name"], "bc:%s/%s" % (bcL["type"], bcR["type"]), "num:" + case["num"].get("limiter", case["num"]["name"]),
                                         "mach:" + _mlabel(s.get("mach", 0.0)), "flux:%s" % case["flux"]])
 
